@@ -199,6 +199,23 @@ class ConnModel:
                 return EnumV(0, [Cell(("written",))])
             return EnumV(1, [Cell(("write-error", "Blocked" if k == 1 else "Stopped"))])
 
+        def s_recv_read(I, a, pth, c):
+            W.proto_calls.append("recv_stream().read()")
+            if pth.choose(2, "quinn-proto read(): chunks / stream not readable") == 1:
+                return EnumV(1, [Cell(("readable-error",))])
+            return EnumV(0, [Cell(("chunks",))])
+
+        def s_read_fn(I, a, pth, c):
+            # the caller's read closure: ReadStatus::{Readable(v), Finished(opt), Failed(opt, Blocked | Reset(code))}
+            k = pth.choose(7, "read closure: readable / finished(none) / finished(some) / blocked(none) / blocked(some) / reset(none) / reset(some)")
+            some_v, none = EnumV(1, [Cell(("data",))]), EnumV(0)
+            if k == 0:
+                return EnumV(0, [Cell(("data",))])
+            if k in (1, 2):
+                return EnumV(1, [Cell(some_v if k == 2 else none)])
+            err = EnumV(0) if k in (3, 4) else EnumV(1, [Cell(("code",))])
+            return EnumV(2, [Cell(some_v if k in (4, 6) else none), Cell(err)])
+
         def s_write_err_convert(I, a, pth, c):
             e = a[0]
             if e[1] == "Blocked":
@@ -235,6 +252,9 @@ class ConnModel:
             (r"^quinn_proto::SendStream::<'_>::stopped$", stream_query("send_stream().stopped()")),
             (r"^quinn_proto::RecvStream::<'_>::received_reset$", stream_query("recv_stream().received_reset()")),
             (r"^<F as FnOnce<\(quinn_proto::SendStream<'_>,\)>>::call_once$", s_write_fn),
+            (r"^quinn_proto::RecvStream::<'_>::read$", s_recv_read),
+            (r"^<F as FnMut<\(&mut quinn_proto::Chunks<'_>,\)>>::call_mut$", s_read_fn),
+            (r"^quinn_proto::Chunks::<'_>::finalize$", s_handle), (r"^ShouldTransmit::should_transmit$", s_opaque_bool),
             (r"^<quinn_proto::WriteError as TryInto<send_stream::WriteError>>::try_into$", s_write_err_convert),
             (r"^<connection::ConnectionError as Into<.*>>::into$", lambda I, a, pth, c: ("converted", a[0])),
             (r"^quinn_proto::Connection::close$|^Instant::now$", lambda I, a, pth, c: UNIT),
@@ -469,5 +489,13 @@ class ConnModel:
             return c[0], [Ref(Cell(stream)), Ref(Cell(cx)), ("write-closure",)]
         return self._stream_poll(p, find, {}, "writable", guard_first=True)
 
+    def check_stream_read(self, p):
+        def find(stream, cx):
+            c = [f for k, f in self.fns.items() if k.startswith("recv_stream::") and k.endswith("::execute_poll_read")]
+            if len(c) != 1:
+                raise Unsupported("cannot locate RecvStream::execute_poll_read (%d)" % len(c))
+            return c[0], [Ref(Cell(stream)), Ref(Cell(cx)), z3.BoolVal(True), ("read-closure",)]
+        return self._stream_poll(p, find, {3: Cell(z3.BoolVal(False)), 4: Cell(EnumV(0))}, "readable", guard_first=False)
+
     CHECKS = ["terminate", "poll_recv_datagram", "poll_open_stream", "poll_accept_stream", "stream_stopped", "stream_received_reset",
-              "stream_write"]
+              "stream_write", "stream_read"]
